@@ -32,6 +32,18 @@ struct Case<'a, TC: ModelCfg> {
     _tc: std::marker::PhantomData<TC>,
 }
 
+/// every interior node of the tree (root first) as a possible anchor, whether or not it lies on q's path:
+/// (label, left, right, is a prefix of q)
+pub fn all_anchors<'a>(tree: &'a MTree, q: &Bits) -> Vec<(Bits, Option<&'a MNode>, Option<&'a MNode>, bool)> {
+    let mut out = vec![(Bits(vec![]), tree.left.as_ref(), tree.right.as_ref(), true)];
+    for n in tree.nodes() {
+        if !n.is_leaf {
+            out.push((n.label.clone(), n.left.as_deref(), n.right.as_deref(), n.label.is_prefix_of(q)));
+        }
+    }
+    out
+}
+
 /// all nodes on the model path whose label is a prefix of q, root first: (label, left, right)
 pub fn anchors<'a>(tree: &'a MTree, q: &Bits) -> Vec<(Bits, Option<&'a MNode>, Option<&'a MNode>)> {
     let mut out = vec![(Bits(vec![]), tree.left.as_ref(), tree.right.as_ref())];
@@ -152,6 +164,30 @@ async fn run_case<TC: ModelCfg>(c: &Case<'_, TC>, queries: &[Bits], rep: &Report
                         rep.distinct(format!("{}:adv-nm-true:{}:{}:{}", TC::NAME, c.desc, q.show(), vname));
                     }
                 }
+            }
+        }
+        // ---- adversarial non-membership anchored at nodes that are NOT on q's path (real children, real proof)
+        for (alabel, l, r, on_path) in all_anchors(c.tree, q) {
+            if on_path {
+                continue;
+            }
+            let an = bits_nl(&alabel);
+            let Ok(mp) = c.azks.get_membership_proof::<TC, _>(c.mgr, an).await else { continue };
+            if mp.label != an {
+                continue;
+            }
+            rep.eval(1);
+            let cand = NonMembershipProof {
+                label: qn,
+                longest_prefix: an,
+                longest_prefix_children: [l.map(elem).unwrap_or(empty), r.map(elem).unwrap_or(empty)],
+                longest_prefix_membership_proof: mp,
+            };
+            if verify_nonmembership_for_tests_only::<TC>(c.root_hash, &cand).is_ok() {
+                rep.violation(
+                    format!("{}/nonmembership_anchored_off_path_accepted/{}", TC::NAME, if member.is_some() { "label_present" } else { "label_absent" }),
+                    json!({"set": c.desc, "query": q.show(), "anchor": alabel.show(), "note": "the claimed longest prefix is not a prefix of the queried label"}),
+                );
             }
         }
         // ---- adversarial membership for q: real proofs of every leaf with fields replaced
